@@ -488,6 +488,17 @@ func cmdRun(args []string) int {
 		fmt.Println("INCONCLUSIVE: translation validation mismatch:", m)
 	}
 
+	// per-family statistics
+	famPaths := map[string]int{}
+	famWall := map[string]float64{}
+	for _, r := range results {
+		famPaths[r.Job.Family] += r.Paths
+		famWall[r.Job.Family] += r.Wall.Seconds()
+	}
+	famStats := map[string]interface{}{}
+	for f, n := range famPaths {
+		famStats[f] = map[string]interface{}{"paths": n, "worker_seconds": round2(famWall[f])}
+	}
 	// evidence
 	wall := time.Since(t0).Seconds()
 	var samples []interface{}
@@ -521,6 +532,7 @@ func cmdRun(args []string) int {
 		"jobs":                          agg.Jobs,
 		"sub_jobs_from_splitting":       agg.SubJobs,
 		"job_families":                  fams,
+		"per_family":                    famStats,
 		"paths_pruned_by_assumptions":   agg.Pruned,
 		"path_outcomes":                 agg.Outcomes,
 		"functions_encoded":             encoded,
